@@ -29,7 +29,7 @@ CLAIMED.update({
     "C01": (
         "Claimed for the VM / linker mechanisms that carry control flow, each as a solver-decided step: ON selection moves the program counter exactly as documented for every selector/count value; "
         "RETURN resumes after its GOSUB and discards loop frames abandoned inside the subroutine; fragments appended by the linker keep statement-local labels local and resolve branches by line number "
-        "(line 0 included) wherever they are placed. The composition text -> tokens -> AST -> fragments -> run over whole programs is outside this check (DESIGN.md §3).",
+        "(line 0 included) wherever they are placed; sealing the program (Program::link) leaves no label or line at the address of the direct line. The composition text -> tokens -> AST -> fragments -> run over whole programs is outside this check (DESIGN.md §3).",
         SCRATCH_NOTE + VSHIM_NOTE, STEP + "one VM / linker step from a symbolic pre-state", "§4 C01"),
     "C02": (
         "Bounded model checking of the real operator / conversion / numeric-function code over ALL operand bit patterns of every Integer/Single/Double type pair: "
@@ -108,11 +108,11 @@ CLAIMED.update({
         SCRATCH_NOTE + VSHIM_NOTE, STEP + "one VM step from a symbolic stack", "§4 C18"),
     "C19": (
         "Claimed for the column machinery and the execution gate: a diagnostic's range is shifted by exactly the line-number prefix for every line number and range; parser columns count characters for every Unicode scalar value in a string literal; "
-        "a jump into a program with recorded compile errors stops and reports them without executing an instruction, while direct code still runs. Which ranges the parser/linker attach to which construct is outside this check.",
+        "a jump into a program with recorded compile errors stops and reports them without executing an instruction, while direct code still runs (forward jump, and back jump to the first direct instruction). Which ranges the parser/linker attach to which construct is outside this check.",
         SCRATCH_NOTE + VSHIM_NOTE, STEP + "symbolic line numbers, columns and characters", "§4 C19"),
     "C20": (
         "Claimed for the linker's relocation: a fragment appended after 0 or 1 earlier local labels keeps its own labels local and its branch to line n (n symbolic, 0 included) resolves to line n's code defined later; "
-        "RESTORE n resolves to the data address of line n for every data layout of three lines. Direct-vs-program mode equivalence over compiled programs is outside this check.",
+        "RESTORE n resolves to the data address of line n for every data layout of three lines; a label or code-less line at the very end of the program stays in front of the direct line (Program::link). Direct-vs-program mode equivalence over compiled programs is outside this check.",
         SCRATCH_NOTE + VSHIM_NOTE, STEP + "link-level fragments with symbolic line numbers", "§4 C20"),
 })
 
